@@ -284,14 +284,19 @@ def run(ctx):
                       "C01 proofs do not check (ops.sw impls as regenerated no longer refine the documented arithmetic, or Frag meta-theory broke); "
                       "the generated operator sweeps below are the search for a failing input", no_input=True)
     judge_ok = os.path.exists(os.path.join(coq.COQ, "C01", "Judge.vo"))
-    npk, nprog = (4, 40) if ctx.quick else (40, 60)
+    npk, nprog = (3, 32) if ctx.quick else (40, 60)
     hist, good = {}, []
+    import threading
+    e2e_box = []
+    th = threading.Thread(target=lambda: e2e_box.append(run_e2e(ctx, 6 if ctx.quick else 150, stats)))
+    th.start()
     if judge_ok:
         good, canon = run_generated(ctx, npk, nprog, stats)
         hist = decide(ctx, good, canon, stats)
     else:
         ctx.violation("judge-missing", {}, "C01/Judge.vo could not be built: programs cannot be judged", no_input=True)
-    e2e = run_e2e(ctx, 10 if ctx.quick else 150, stats)
+    th.join()
+    e2e = e2e_box[0] if e2e_box else []
     progs = [g for g, _, _ in good]
     gstats = {}
     for g in progs:
